@@ -295,6 +295,17 @@ def run_item(item):
                 l1 = ['diff --git a/%s b/%s' % (n1, n1), 'new file mode 100644', 'index 0000000..1111111', '--- /dev/null', '+++ b/' + n1] + body
             l2 = ['diff --git a/%s b/%s' % (n1, n1), 'index 1111111..2222222 100644', '--- a/' + n1, '+++ b/' + n1] + body
             label = (which + ' ' + n1, 'changed ' + n1)
+        elif rng.random() < 0.3:
+            # the file renamed (or copied) from a name of another kind, with the same changes: the hunks are those of the new
+            # name, whose language they are shown in
+            other = rng.choice([l_ for l_ in sorted(snippets.SNIPPETS) if l_ != lang])
+            old = 'tools/' + rng.choice(snippets.NAMES[other] + ['REPORT', 'notes'])
+            word = rng.choice(['rename', 'copy'])
+            hunks = l1[4:]
+            l2 = l1
+            l1 = ['diff --git a/%s b/%s' % (old, n1), 'similarity index 80%', '%s from %s' % (word, old), '%s to %s' % (word, n1), 'index 1111111..2222222 100644',
+                  '--- a/' + old, '+++ b/' + n1] + hunks
+            label = ('%s from %s to %s' % (word, old, n1), 'changed ' + n1)
         opts['--syntax-theme'] = rng.choice(themes)
         a = runner.run_delta(gen.to_args(opts), ('\n'.join(l1) + '\n').encode())
         b = runner.run_delta(gen.to_args(opts), ('\n'.join(l2) + '\n').encode())
